@@ -115,6 +115,8 @@ func (q Quantity) ToProtoQuantity() *dtpb.Quantity {
 
 	if q.unit != "" {
 		res.Unit = fhir.String(q.unit)
+		// the unit a System Quantity is read back from (see From)
+		res.Code = fhir.Code(q.unit)
 	}
 
 	return res
